@@ -105,7 +105,7 @@ func (n *Net) doCanned(c *Call, req *http.Request) (*http.Response, error) {
 	n.S.Gate(c.ID+"/do", &e.dp)
 	if err := req.Context().Err(); err != nil {
 		e.Abort(err)
-		return nil, urlErr(req, err)
+		return nil, c.ctxDoErr(req, err)
 	}
 	major, minor, proto := 1, 1, "HTTP/1.1"
 	if c.K.HTTP2 {
